@@ -20,7 +20,7 @@ func init() {
 		Rule: "every isomorphism class on n<=7 vertices (n<=8 thorough; harness-generated, Polya-checked) x relabellings (identity, reversal, seeded permutations) x representations " +
 			"{dense, sparse, InducedSubgraph view of a larger dense/sparse graph, Complement view of the complement graph, Complement(Complement(.))}; named families with published values; seeded G(n,p), trees and regular graphs on 9..13 vertices. " +
 			"Per (graph, representation): CliqueNumber, IndependenceNumber, AllMaximalCliques (channel drained for at most |expected|+1 values, must be closed), ChromaticNumber, IsKColorable for every k in 0..n+1, ChromaticIndex, Degeneracy, " +
-			"GreedyColor (all n! orders for n<=5, fixed and seeded orders above), IsProperColouring, ChromaticPolynomial at k=0..n+1 (dense and sparse). " +
+			"GreedyColor (all n! orders for n<=5 (n<=6 thorough) on the first labelling; identity, reversal, smallest-last and seeded orders otherwise), IsProperColouring, ChromaticPolynomial at k=0..n+1 (dense and sparse). " +
 			"non-trivial = (labelled graph, representation) with n >= 4 and m >= 2; distinct = hash of (graph6 of the labelled graph, representation)",
 		Assumptions: []string{
 			"oracle: subset scans / subset DP / plain backtracking of verif/internal/oracle/brute and of this package (edge-colouring search, partitions into independent sets, degeneracy as max-min-degree over induced subgraphs); validated at build time against the published chi and chi' histograms for n<=6, |P(Petersen,3)|=120 and a table of named graphs",
@@ -29,8 +29,8 @@ func init() {
 			"families too large for brute force use the published value; the witness is still checked from the definition",
 		},
 		Run:            run,
-		MinEvaluations: map[string]int{"quick": 400000, "thorough": 3000000},
-		MinNontrivial:  map[string]int{"quick": 15000, "thorough": 100000},
+		MinEvaluations: map[string]int{"quick": 1000000, "thorough": 8000000},
+		MinNontrivial:  map[string]int{"quick": 30000, "thorough": 200000},
 		RequiredObs: []string{
 			"rep:dense", "rep:sparse", "rep:view", "rep:compl", "rep:compl2",
 			"calls:CliqueNumber", "calls:IndependenceNumber", "calls:AllMaximalCliques", "calls:ChromaticNumber", "calls:IsKColorable",
@@ -95,11 +95,8 @@ func run(c *engine.Ctx) {
 		}
 		nClasses := classCount(n)
 		nLab := c.Pick(6, 8)
-		if n == 7 {
-			nLab = c.Pick(4, 8)
-		}
 		if n == 8 {
-			nLab = 3
+			nLab = 4
 		}
 		if n <= 1 {
 			nLab = 1
@@ -120,7 +117,7 @@ func run(c *engine.Ctx) {
 					}
 					for li, p := range labellings(c, n, nLab, "class-labelling", n*100000+ci) {
 						cs := &graphCase{workload: "classes", class: base.G6(), labelling: li, perm: p, g: base.Induced(p), ref: r}
-						opt := runOpts{index: true, polyDense: true, allOrders: n <= 5 && li == 0, seededOrders: 3, rng: caseRng(c, li < 2, "class", n*100000+ci, li)}
+						opt := runOpts{index: true, polyDense: true, allOrders: n <= c.Pick(5, 6) && li == 0, seededOrders: 3, rng: caseRng(c, li < 2, "class", n*100000+ci, li)}
 						runCase(c, cs, opt)
 					}
 				}
@@ -145,7 +142,7 @@ func run(c *engine.Ctx) {
 			per = 131
 		}
 		if n == 8 {
-			per = 200
+			per = 100
 		}
 		for lo := 0; lo < classCount(n); lo += per {
 			hi := lo + per
@@ -187,7 +184,7 @@ func run(c *engine.Ctx) {
 			}
 		}
 	})
-	nSeeded := c.Pick(960, 6000)
+	nSeeded := c.Pick(1600, 12000)
 	perUnit := 12
 	for u := 0; u*perUnit*10 < nSeeded; u++ {
 		u := u
